@@ -76,6 +76,17 @@ CLAIMS = {
              "same answers. Partial: per-frame substitutions and the Preprocessor counters are not mirrored (covered only "
              "differentially).",
         design_ref="5 C04"),
+    "C15": dict(
+        technique="Lean 4 proof over a branch-by-branch mirror of FastRational (exactness + canonical form for all operands) tied by differential runs on the boundary lattice with GMP as independent oracle",
+        text="Mirror model of FastRational (word/GMP representation, every CHECK_* site, unsigned truncations written "
+             "explicitly). Proved for all well-formed operands: addition and multiplication return the exact result in "
+             "canonical well-formed form in every branch (incl. Knuth's gcd lemma showing the 32-bit store of the second gcd "
+             "loses nothing), negation, comparison, GMP path, gcd template, canonical representation (equal values => "
+             "identical data and hash). Tie: ~180k operations per run (all unary ops x lattice, binary ops x lattice pairs, "
+             "values reached through GMP arithmetic) compared on value, representation and hash under ASan/UBSan, plus GMP "
+             "oracle. Partial: sub/div/inverse/floor/ceil/in-place variants are mirrored and tied but their exactness is not "
+             "proved; gcd/lcm/% are checked against GMP only.",
+        design_ref="5 C15"),
 }
 
 PENDING = "not yet built in this round; design in DESIGN.md section 5, construction order in section 10"
